@@ -10,8 +10,9 @@ Import ListNotations.
 (* the clauses read from ak/ghist.py are the ones the model and the theorems rely on *)
 Theorem consts_ok :
   src_prune = PruneAtFromAncestors /\ In ClBump src_is_rbuild /\
-  (forall c, In c src_is_rbuild <-> In c [ClNew; ClBump; ClMerge]) /\ src_cycle_err = ValueErr.
-Proof. exact (conj src_prune_ok (conj src_bump_clause (conj src_rbuild_clauses src_cycle_err_ok))). Qed.
+  (forall c, In c src_is_rbuild <-> In c [ClNew; ClBump; ClMerge]) /\ src_cycle_err = ValueErr /\
+  src_bump_state = StatePerComponent.
+Proof. exact (conj src_prune_ok (conj src_bump_clause (conj src_rbuild_clauses (conj src_cycle_err_ok src_bump_state_ok)))). Qed.
 Print Assumptions consts_ok.
 
 (* ================================================================== *)
@@ -166,8 +167,8 @@ Proof. exact included_first_refuted_l. Qed.
 Print Assumptions included_first_refuted.
 
 Theorem included_first_witness :
-  exists r, parent_report v_ci v_commits w_heads = Ok r /\
-            included_at r 2 = [(0, (5, 1, 1)%Z); (0, (5, 1, 3)%Z)].
+  exists r, parent_report [v_ci] v_commits w_heads = Ok r /\
+            included_at 0 r 2 = [(0, (5, 1, 1)%Z); (0, (5, 1, 3)%Z)].
 Proof. exact v_included. Qed.
 Print Assumptions included_first_witness.
 
@@ -175,9 +176,9 @@ Print Assumptions included_first_witness.
    component 1.1.4 <- {1.1.5, 1.1.6} <- 1.1.7, parent builds pin 1.1.5 then 1.1.7; every component
    build is now recorded at exactly the first parent build that ships it *)
 Example included_first_fixed_ex :
-  exists r, parent_report w_ci w_commits w_heads = Ok r /\
-            included_at r 0 = [(0, (5, 1, 2)%Z)] /\ included_at r 1 = [(0, (5, 1, 3)%Z)] /\
-            included_at r 2 = [(0, (5, 1, 2)%Z)] /\ included_at r 3 = [(0, (5, 1, 3)%Z)].
+  exists r, parent_report [w_ci] w_commits w_heads = Ok r /\
+            included_at 0 r 0 = [(0, (5, 1, 2)%Z)] /\ included_at 0 r 1 = [(0, (5, 1, 3)%Z)] /\
+            included_at 0 r 2 = [(0, (5, 1, 2)%Z)] /\ included_at 0 r 3 = [(0, (5, 1, 3)%Z)].
 Proof. exact w_included. Qed.
 Print Assumptions included_first_fixed_ex.
 
@@ -191,16 +192,16 @@ Print Assumptions included_first_fixed_ex.
    iff that build ships y and no ancestor build of it in the branch does.
    What separates this from the full statement: pins that grow in build NUMBER but not in the
    ancestor order (the witness above) -- there the statement is false for the current code. *)
-Theorem included_first_partial : forall ci branches regs,
-  wf (ci_graph ci) -> NoDup (map fst branches) -> registrations ci branches = Some regs ->
+Theorem included_first_partial : forall cx ci branches regs,
+  wf (ci_graph ci) -> NoDup (map fst branches) -> registrations cx ci branches = Some regs ->
   forall br rbs, In (br, rbs) branches ->
     NoDup (map fst rbs) -> NoDup (map (fun p => rb_bn (snd p)) rbs) ->
-    linked rbs -> pins_ordered (ci_graph ci) rbs ->
+    linked cx rbs -> pins_ordered cx (ci_graph ci) rbs ->
     forall i rb b t y, In (i, rb) rbs -> bn_eqb (rb_bn rb) fake_not_merged = false ->
-      rb_bump rb = Some b -> b_to b = Some t ->
+      rb_bump cx rb = Some b -> b_to b = Some t ->
       (In (y, (br, rb_bn rb)) regs <->
        anc (ci_graph ci) t y /\
-       forall j rb' b' t', panc rbs i j -> In (j, rb') rbs -> rb_bump rb' = Some b' -> b_to b' = Some t' ->
+       forall j rb' b' t', panc rbs i j -> In (j, rb') rbs -> rb_bump cx rb' = Some b' -> b_to b' = Some t' ->
                            ~ anc (ci_graph ci) t' y).
 Proof. exact included_first_l. Qed.
 Print Assumptions included_first_partial.
@@ -209,16 +210,17 @@ Print Assumptions included_first_partial.
    the conclusion of included_first_statement under the two structural guards.  That the RGraph
    construction yields linked branches is the local theorem bump_from plus the correspondence run,
    not a global theorem; that keys and build numbers of a branch are distinct is a guard too. *)
-Theorem included_first_guarded : forall ci commits heads r,
-  wf (ci_graph ci) -> parent_report ci commits heads = Ok r -> NoDup (map fst heads) ->
+Theorem included_first_guarded : forall cis commits heads r cx ci,
+  nth_error cis cx = Some ci ->
+  wf (ci_graph ci) -> parent_report cis commits heads = Ok r -> NoDup (map fst heads) ->
   forall br rbs, In (br, rbs) (r_branches r) ->
     NoDup (map fst rbs) -> NoDup (map (fun p => rb_bn (snd p)) rbs) ->
-    linked rbs -> pins_ordered (ci_graph ci) rbs ->
+    linked cx rbs -> pins_ordered cx (ci_graph ci) rbs ->
     forall i rb b t y, In (i, rb) rbs -> bn_eqb (rb_bn rb) fake_not_merged = false ->
-      rb_bump rb = Some b -> b_to b = Some t -> In y (map fst (ci_rbs ci)) ->
-      (In (br, rb_bn rb) (included_at r y) <->
+      rb_bump cx rb = Some b -> b_to b = Some t -> In y (map fst (ci_rbs ci)) ->
+      (In (br, rb_bn rb) (included_at cx r y) <->
        anc (ci_graph ci) t y /\
-       forall j rb' b' t', panc rbs i j -> In (j, rb') rbs -> rb_bump rb' = Some b' -> b_to b' = Some t' ->
+       forall j rb' b' t', panc rbs i j -> In (j, rb') rbs -> rb_bump cx rb' = Some b' -> b_to b' = Some t' ->
                            ~ anc (ci_graph ci) t' y).
 Proof. exact included_first_report_l. Qed.
 Print Assumptions included_first_guarded.
@@ -227,9 +229,9 @@ Print Assumptions included_first_guarded.
    of DESIGN.md section 7 (component 1.1.4 <- {1.1.5, 1.1.6} <- 1.1.7, pins 1.1.1, 1.1.5, 1.1.7) has one
    branch of two reported builds that is linked and whose pins are ancestor-ordered *)
 Example included_first_guarded_ex :
-  exists r rbs, parent_report w_ci w_commits w_heads = Ok r /\ In (0, rbs) (r_branches r) /\
+  exists r rbs, parent_report [w_ci] w_commits w_heads = Ok r /\ In (0, rbs) (r_branches r) /\
     length rbs = 2 /\ NoDup (map fst rbs) /\ NoDup (map (fun p => rb_bn (snd p)) rbs) /\
-    linked rbs /\ pins_ordered (ci_graph w_ci) rbs.
+    linked 0 rbs /\ pins_ordered 0 (ci_graph w_ci) rbs.
 Proof. exact w_guards. Qed.
 Print Assumptions included_first_guarded_ex.
 
@@ -237,44 +239,90 @@ Print Assumptions included_first_guarded_ex.
    pins): a component build contained in the new pin and in none of the bump's from-builds is
    recorded at that parent build -- registrations are never missing, only (see above)
    sometimes repeated *)
-Theorem included_never_missing : forall ci branches regs, wf (ci_graph ci) ->
-  registrations ci branches = Some regs ->
+Theorem included_never_missing : forall cx ci branches regs, wf (ci_graph ci) ->
+  registrations cx ci branches = Some regs ->
   forall br rbs p b t y, In (br, rbs) branches -> In p rbs ->
-    bn_eqb (rb_bn (snd p)) fake_not_merged = false -> rb_bump (snd p) = Some b -> b_to b = Some t ->
+    bn_eqb (rb_bn (snd p)) fake_not_merged = false -> rb_bump cx (snd p) = Some b -> b_to b = Some t ->
     (anc (ci_graph ci) t y /\ forall f, In f (b_from b) -> ~ anc (ci_graph ci) f y) ->
     In (y, (br, rb_bn (snd p))) regs.
 Proof. exact never_missing_l. Qed.
 Print Assumptions included_never_missing.
 
-(* _mk_bumps_info: a bump starts from the to-builds of the parent builds' bumps *)
-Theorem bump_from : forall ci g cm prb b, mk_bump ci g cm prb = Some b ->
+(* _mk_bumps_info: a bump of component cx starts from the to-builds of the parent builds' bumps OF cx *)
+Theorem bump_from : forall cx ci g cm prb b, mk_bump cx ci g cm prb = Some b ->
   forall f, In f (b_from b) <->
-    exists p rb pb, In p prb /\ get_rb g p = Some rb /\ rb_bump rb = Some pb /\
+    exists p rb pb, In p prb /\ get_rb g p = Some rb /\ rb_bump cx rb = Some pb /\
                     (b_to pb = Some f \/ (b_to pb = None /\ In f (b_from pb))).
 Proof. exact bump_from_l. Qed.
 Print Assumptions bump_from.
 
 (* ================================================================== *)
+(* several components of one parent: each is dealt with by itself      *)
+
+(* _mk_bumps_info, the loop over the components (the state of an iteration - from_builnums,
+   from_rbuilds - is created inside the loop body: consts_ok): the entry of component cx is the bump
+   computed from cx's version map, the commit's pin of cx and the parent builds' bumps of cx ALONE.
+   Replace the other components (their graphs, what the commit pins for them, the bumps of them the
+   parent builds carry - any graph state g' that agrees with g on the parent builds' bumps of cx) and
+   cx's bump is the same.  In particular RBuild iids of another component, which may coincide with
+   iids of cx's builds, never reach is_trivial / get_rbuilds_in_bump of cx's bump. *)
+Theorem bumps_independent_per_component : forall cis cis' g g' cm cm' prb cx ci,
+  nth_error cis cx = Some ci -> nth_error cis' cx = Some ci ->
+  c_pin cx cm' = c_pin cx cm -> (forall p, In p prb -> bump_at cx g' p = bump_at cx g p) ->
+  nth_error (mk_bumps cis g cm prb) cx = Some (mk_bump cx ci g cm prb) /\
+  nth_error (mk_bumps cis' g' cm' prb) cx = nth_error (mk_bumps cis g cm prb) cx.
+Proof. exact bumps_independent_l. Qed.
+Print Assumptions bumps_independent_per_component.
+
+(* ... and the included_at lists of component cx's builds are the registrations of cx's own loop over
+   the report's builds: they read nothing but the bumps of cx (with bump_set_exact, included_first_guarded
+   and included_never_missing, which all are per component) *)
+Theorem included_per_component : forall cis commits heads r, parent_report cis commits heads = Ok r ->
+  forall cx ci, nth_error cis cx = Some ci ->
+  exists regs, registrations cx ci (r_branches r) = Some regs /\
+    forall y br k, In y (map fst (ci_rbs ci)) -> (In (br, k) (included_at cx r y) <-> In (y, (br, k)) regs).
+Proof. intros cis commits heads r H. exact (proj2 (parent_report_regs _ _ _ _ H)). Qed.
+Print Assumptions included_per_component.
+
+(* two components whose RBuild iids coincide (0..4 in both), pins (1.0.3, 2.0.1), (1.0.3, 2.0.3),
+   (1.0.4, 2.0.4), (1.0.5, 2.0.4) run through the whole model: every build of either component is recorded
+   at exactly the first parent build whose pin of its own component contains it, and what is recorded for
+   the first component does not change when the second one is pinned differently *)
+Example independent_components_ex :
+  exists r, parent_report [m_ci 1; m_ci 2] (m_commits [1; 3; 4; 4]%Z) [(0, 3)] = Ok r /\
+    map (included_at 0 r) [0; 1; 2; 3; 4] =
+      [[(0, (9, 0, 1)%Z)]; [(0, (9, 0, 1)%Z)]; [(0, (9, 0, 1)%Z)]; [(0, (9, 0, 3)%Z)]; [(0, (9, 0, 4)%Z)]] /\
+    map (included_at 1 r) [0; 1; 2; 3; 4] =
+      [[(0, (9, 0, 1)%Z)]; [(0, (9, 0, 2)%Z)]; [(0, (9, 0, 2)%Z)]; [(0, (9, 0, 3)%Z)]; []] /\
+    forall pb, In pb [[5; 5; 5; 5]; [1; 1; 1; 1]; [1; 2; 2; 3]; [3; 3; 4; 5]]%Z ->
+      exists r', parent_report [m_ci 1; m_ci 2] (m_commits pb) [(0, 3)] = Ok r' /\
+                 map (included_at 0 r') [0; 1; 2; 3; 4] = map (included_at 0 r) [0; 1; 2; 3; 4].
+Proof. exact m_included. Qed.
+Print Assumptions independent_components_ex.
+
+(* ================================================================== *)
 (* a parent build whose pin moves across report-related component builds is reported *)
 
-(* _mk_rcommits on a build commit (or the branch head): if the bump of the component
-   computed against the parent builds is not trivial, an RBuild carrying that bump is
-   created for the commit -- whether or not it has matching commits of its own *)
-Theorem bump_reported : forall ci head c cm g,
+(* _mk_rcommits on a build commit (or the branch head): if the bump of ONE component
+   computed against the parent builds is not trivial, an RBuild carrying that bump (and the bumps of
+   all the components, each computed by itself) is created for the commit -- whether or not it has
+   matching commits of its own, and whatever the other components do *)
+Theorem bump_reported : forall cis head c cm g cx ci, nth_error cis cx = Some ci ->
   (nonempty (c_tags cm) || (c =? head)) = true ->
   forall nw prb g1 b,
     find_new g (rc_parents_of g (c_parents cm)) = (nw, prb, g1) ->
-    mk_bump ci g1 cm prb = Some b -> is_trivial b = false ->
-    exists rb, zfind (g_cnt g) (g_cur (finalise ci head c cm g)) = Some rb /\
-               rb_bump rb = Some b /\ rb_type rb = 0%Z /\ rb_parents rb = prb /\
-               nfind c (g_selected (finalise ci head c cm g)) = Some (g_cnt g).
+    mk_bump cx ci g1 cm prb = Some b -> is_trivial b = false ->
+    exists rb, zfind (g_cnt g) (g_cur (finalise cis head c cm g)) = Some rb /\
+               rb_bump cx rb = Some b /\ rb_bumps rb = mk_bumps cis g1 cm prb /\
+               rb_type rb = 0%Z /\ rb_parents rb = prb /\
+               nfind c (g_selected (finalise cis head c cm g)) = Some (g_cnt g).
 Proof. exact bump_reported_l. Qed.
 Print Assumptions bump_reported.
 
 (* non-vacuity: in the witness history the second and third parent builds have no matching
    commit at all and are reported because of their bumps *)
 Example bump_reported_ex :
-  exists r, parent_report w_ci w_commits w_heads = Ok r /\
+  exists r, parent_report [w_ci] w_commits w_heads = Ok r /\
             map (fun br => map (fun p => (rb_bn (snd p), rb_rcommits (snd p))) (snd br)) (r_branches r)
             = [[((5, 1, 2)%Z, [0%Z]); ((5, 1, 3)%Z, [1%Z])]] /\
             map (fun p => rc_expl (snd p)) (r_rcs r) = [false; false].
